@@ -95,6 +95,27 @@ def r15(ctx):
             ctx.violation("R15d", fl, name, r, f"shortcut return {norm(v, 40) if v is not None else 'None'}",
                           f"`{norm(r, 70)}` answers without going through the solver and the missing-pair filter: the "
                           f"pairing may use pairs that do not exist or may not be optimal")
+    # the empty-table answer must be given before anything computes with the running extrema (None for an empty table)
+    empties = [r for r in rets if isinstance(r.value, ast.Dict) and not r.value.keys]
+    if empties and MAXV:
+        first = min(r.lineno for r in empties)
+        loop_end = max((getattr(l, "end_lineno", l.lineno) for l in walk_no_nested(fn) if isinstance(l, ast.For)
+                        and any(isinstance(a, ast.Assign) and dotted(a.targets[0]) == MAXV for a in ast.walk(l))), default=0)
+        early = []
+        for x in walk_no_nested(fn):
+            if isinstance(x, (ast.Compare, ast.BinOp)) or (isinstance(x, ast.Call) and call_name(x) in ("max", "min", "abs")):
+                if getattr(x, "lineno", 0) > loop_end and x.lineno < first and \
+                        any(isinstance(y, ast.Name) and y.id in (MAXV, MINV) for y in ast.walk(x)):
+                    facts = [ast.unparse(t).replace(" ", "") for t, pol in flatten_conditions(dominating_conditions(x)) if pol]
+                    if not any(ft in (f"{ET}isnotNone", f"{MAXV}isnotNone") for ft in facts):
+                        early.append(x)
+        if early:
+            ctx.violation("R15d", fl, name, early[0], "empty answer precedes weight arithmetic",
+                          f"`{norm(early[0], 60)}` computes with {MAXV}/{MINV} before the `return {{}}` for a table without pairs; "
+                          f"for such a table they are still None, so the call raises TypeError instead of returning the empty matching")
+        else:
+            ctx.proved("R15d", fl, name, empties[0], "empty answer precedes weight arithmetic",
+                       f"nothing compares or adds {MAXV}/{MINV} between the edge loop and the empty-table return")
     if main_ret is None:
         ctx.violation("R15d", fl, name, fn, "solver-derived answer", "no return builds the answer from the solver's result")
         return
@@ -142,14 +163,26 @@ def r15(ctx):
             and not (isinstance(s.value, ast.Constant) and s.value.value is None)]
     if sent:
         sval = sent[0].value
-        if isinstance(sval, ast.BinOp) and isinstance(sval.op, ast.Add) and isinstance(sval.right, ast.Constant) \
-                and isinstance(sval.right.value, int) and sval.right.value >= 1 and isinstance(sval.left, ast.Call) \
-                and call_name(sval.left) == "max" and any(isinstance(x, ast.Call) and call_name(x) == "sum" for x in ast.walk(sval.left)) \
-                and f"{WV}[" in ast.unparse(sval.left):
-            ctx.proved("R15b", fl, name, sent[0], "sentinel magnitude", "sentinel = max column sum + 1 > any real pair")
+        plus_one = isinstance(sval, ast.BinOp) and isinstance(sval.op, ast.Add) and isinstance(sval.right, ast.Constant) \
+            and isinstance(sval.right.value, int) and sval.right.value >= 1 and isinstance(sval.left, ast.Call) \
+            and call_name(sval.left) == "max"
+        colsum = plus_one and any(isinstance(x, ast.Call) and call_name(x) == "sum" for x in ast.walk(sval.left)) \
+            and f"{WV}[" in ast.unparse(sval.left)
+        # the filter `weights[r][c] < sentinel` keeps a real pair only if sentinel > that pair's weight: the sentinel must
+        # dominate the running maximum by construction (a column sum alone does not when weights can be negative)
+        dominates = plus_one and len(sval.left.args) >= 2 and any(dotted(a) == MAXV for a in sval.left.args)
+        if colsum and dominates:
+            ctx.proved("R15b", fl, name, sent[0], "sentinel magnitude",
+                       f"sentinel = max(largest column sum, {MAXV}) + {sval.right.value}: strictly above every real weight whatever the signs")
+        elif colsum:
+            ctx.violation("R15b", fl, name, sent[0], "sentinel magnitude",
+                          f"sentinel `{norm(sent[0].value, 60)}` is (largest column sum + 1) only: with negative weights a column "
+                          f"sum can be below a single weight, so the sentinel need not exceed {MAXV} - the assert that follows "
+                          f"fires ([[5, None], [-10, -10]]) or, under -O, real pairs at or above the sentinel are dropped as "
+                          f"missing; take max(..., {MAXV}) + 1")
         else:
             ctx.violation("R15b", fl, name, sent[0], "sentinel magnitude",
-                          f"sentinel `{norm(sent[0].value, 60)}` is not (largest column sum + 1): a real pair could cost as "
+                          f"sentinel `{norm(sent[0].value, 60)}` is not max(largest column sum, {MAXV}) + 1: a real pair could cost as "
                           f"much as a missing one and be dropped, or a missing pair be preferred")
         fold = [s for s in walk_no_nested(fn) if isinstance(s, ast.Assign) and dotted(s.targets[0]) == MAXV
                 and dotted(s.value) == SV]
@@ -221,6 +254,49 @@ def r15(ctx):
     else:
         ctx.violation("R15c", gd.file, "get_dtype", cmp_[0] if cmp_ else gd.node, "interval test",
                       f"get_dtype tests `{ctxt}`; expected lo <= min_value and hi > max_value")
+    # every dtype get_dtype hands back is justified by the containment test on *this call's* arguments
+    dvar = lp_.target.elts[2].id if lp_ is not None and isinstance(lp_.target.elts[2], ast.Name) else None
+    test_txt = ast.unparse(cmp_[0]) if cmp_ else None
+    nret = 0
+    for r in walk_no_nested(gd.node):
+        if not isinstance(r, ast.Return):
+            continue
+        nret += 1
+        v = r.value
+        why = None
+        if isinstance(v, ast.Call) and ast.unparse(v).replace(" ", "") in ("np.dtype(int)", "numpy.dtype(int)", "np.dtype(np.int64)"):
+            okr = "platform-wide integer fallback"
+        elif isinstance(v, ast.Name) and v.id == dvar and lp_ is not None:
+            inside = any(a is lp_ for a in ancestors_of(r))
+            if inside:
+                facts = [ast.unparse(t) for t, pol in flatten_conditions(dominating_conditions(r)) if pol]
+                okr = "returned under the containment test" if test_txt and all(part.strip() in facts for part in test_txt.split(" and ")) else None
+                why = f"`return {dvar}` inside the table loop is not guarded by the containment test (guards: {facts})"
+            else:
+                brks = [b for b in ast.walk(lp_) if isinstance(b, ast.Break)]
+                guarded = brks and test_txt and all(
+                    all(part.strip() in [ast.unparse(t) for t, pol in flatten_conditions(dominating_conditions(b)) if pol]
+                        for part in test_txt.split(" and ")) for b in brks)
+                others = [a for a in walk_no_nested(gd.node) if isinstance(a, (ast.Assign, ast.AugAssign, ast.AnnAssign))
+                          and any(isinstance(t, ast.Name) and t.id == dvar for t in ast.walk(a.targets[0] if isinstance(a, ast.Assign) else a.target))]
+                in_else = [a for a in others if any(a is x for st in lp_.orelse for x in ast.walk(st))]
+                fallback = in_else and len(in_else) == len(others) and all(
+                    isinstance(a, ast.Assign) and ast.unparse(a.value).replace(" ", "") in ("np.dtype(int)", "numpy.dtype(int)") for a in in_else)
+                okr = "loop left by `break` under the containment test, for-else assigns the wide fallback" if guarded and fallback else None
+                why = (f"`return {dvar}` after the table loop: the loop must be left only by `break` under the containment test and "
+                       f"its else-arm must assign the wide fallback (otherwise the last table row, or a stale value, is returned)")
+        elif isinstance(v, ast.Name) and _exact_memo(gd.node, v.id, p, dvar):
+            okr = "memoised under the exact (min_value, max_value) key; only table-justified dtypes are stored"
+        else:
+            okr = None
+            why = (f"`{norm(r, 60)}` returns a dtype that does not come from the interval table under the containment test on this "
+                   f"call's (min_value, max_value) - e.g. a value remembered from an earlier call with different arguments")
+        if okr:
+            ctx.proved("R15c", gd.file, "get_dtype", r, f"return {norm(v, 30)}", okr, nontrivial=False)
+        else:
+            ctx.violation("R15c", gd.file, "get_dtype", r, f"return {norm(v, 30) if v is not None else 'None'}",
+                          why + ": a dtype too narrow for the weights makes np.array raise OverflowError or wrap the weights")
+    ctx.floor("R15c", nret, 2, "returns of get_dtype")
     tree = m.mods["graphtage.matching"]
     tab = next((s for s in tree.body if isinstance(s, (ast.Assign, ast.AnnAssign))
                 and dotted(s.targets[0] if isinstance(s, ast.Assign) else s.target) == "INTEGER_DTYPE_INTERVALS"), None)
@@ -246,6 +322,31 @@ def r15(ctx):
                           f"INTEGER_DTYPE_INTERVALS claims [{lo}, {hi}) for {tname}, whose real range is [{info.min}, {info.max}]: "
                           f"weights near the boundary overflow silently")
     ctx.floor("R15c", rows, 6, "dtype interval rows")
+
+
+def _exact_memo(fn, name, params, dvar):
+    """`name` is read from a mapping under a key that is exactly the tuple of both parameters, and every store into that
+    mapping inside fn uses the same key and stores the table-loop's dtype variable (or the wide fallback)."""
+    def key_exact(k):
+        if isinstance(k, ast.Name):
+            defs = [a.value for a in walk_no_nested(fn) if isinstance(a, ast.Assign) and len(a.targets) == 1
+                    and isinstance(a.targets[0], ast.Name) and a.targets[0].id == k.id]
+            return len(defs) == 1 and key_exact(defs[0])
+        return isinstance(k, ast.Tuple) and [dotted(e) for e in k.elts] == list(params[:2])
+    defs = [a.value for a in walk_no_nested(fn) if isinstance(a, ast.Assign) and len(a.targets) == 1
+            and isinstance(a.targets[0], ast.Name) and a.targets[0].id == name]
+    if len(defs) != 1:
+        return False
+    d = defs[0]
+    if isinstance(d, ast.Call) and isinstance(d.func, ast.Attribute) and d.func.attr == "get" and d.args and key_exact(d.args[0]):
+        mapping = dotted(d.func.value)
+    elif isinstance(d, ast.Subscript) and key_exact(d.slice):
+        mapping = dotted(d.value)
+    else:
+        return False
+    stores = [a for a in walk_no_nested(fn) if isinstance(a, ast.Assign) and isinstance(a.targets[0], ast.Subscript)
+              and dotted(a.targets[0].value) == mapping]
+    return bool(mapping) and all(key_exact(a.targets[0].slice) and isinstance(a.value, ast.Name) and a.value.id == dvar for a in stores)
 
 
 def _same_or_outer(a, b):
